@@ -780,11 +780,18 @@ def _run_op(world, idx, op):
             owned = [x for pool in (world.models, world.rmodels)
                      for pm in pool.values()
                      for x in dg.arrays_in(pm.value).values()]
-            owned += list(dg.arrays_in(out.value).values())
-            owned += list(dg.arrays_in(out2.value).values()) if out2.kind == 'ok' else []
-            owned += list(dg.arrays_in(out3.value).values()) if out3.kind == 'ok' else []
+            earlier = list(dg.arrays_in(out.value).values())
+            earlier += list(dg.arrays_in(out2.value).values()) if out2.kind == 'ok' else []
+            earlier += list(dg.arrays_in(out3.value).values()) if out3.kind == 'ok' else []
+            shared_results = False
             for arr in dg.arrays_in(out_s.value).values():
                 if any(np.may_share_memory(arr, o) for o in owned):
+                    continue
+                if any(np.may_share_memory(arr, o) for o in earlier):
+                    # writable memory handed out by two different calls: a
+                    # write of the caller into one result changes the other
+                    if arr.flags.writeable and arr.size:
+                        shared_results = True
                     continue
                 if arr.flags.writeable and arr.size:
                     try:
@@ -792,7 +799,13 @@ def _run_op(world, idx, op):
                         scribbled += 1
                     except (ValueError, TypeError):
                         pass
-            if scribbled:
+            if shared_results:
+                _viol(world, 'O2', idx, name, a,
+                      'two calls with the same arguments return arrays that '
+                      'share writable memory: what the caller writes into one '
+                      'result shows up in the other (results are handed out '
+                      'from library-internal state)')
+            if scribbled and not world.violations:
                 md_mid = world.changed_inputs(md_before)
                 seams.rng_set(rng0)
                 out_t = call(name, Ctx(world), a, None)
